@@ -95,9 +95,11 @@ FORWARDED = {"random_flag_complex_d2": "fast_gnp_random_graph", "random_flag_com
 def twice(ctx, p):
     name = p["f"]
     f = CASES[name]
-    s = ctx.int("seed", -3, 3)
+    s = ctx.int("seed", -3, 3) if p.get("seedtype", "int") == "int" else ctx.int("seed", 0, 3)
+    if p.get("seedtype") == "np.int64" and not ctx.symbolic:
+        s = np.int64(s)  # integer seeds of another type (the symbolic run cannot tell them apart)
     ctx.info["op"] = name
-    ctx.info["args"] = {"seed": s}
+    ctx.info["args"] = {"seed": s, "seedtype": p.get("seedtype", "int")}
     env, py, npr = _env(ctx)
     FORWARD.clear()
     extra = {("networkx", "fast_gnp_random_graph"): _fake_gnp, ("networkx", "spring_layout"): _fake_spring,
@@ -130,6 +132,7 @@ def twice(ctx, p):
 
 def spec(tier, seed):
     units = [("C17.twice", {"f": name, "shape": None, "kind": name}) for name in CASES]
+    units += [("C17.twice", {"f": name, "shape": None, "kind": name, "seedtype": "np.int64"}) for name in CASES]
     return {
         "units": units,
         "states_key": "f",
